@@ -1,5 +1,5 @@
 (** * C04 - Interrupted operations resume to the same result; seed fixed by the first call. *)
-From LP Require Import Proofs.Tactics Proofs.Loop Proofs.Resume Proofs.Resume2 Proofs.Resume3 Proofs.Examples.
+From LP Require Import Proofs.Tactics Proofs.Loop Proofs.Resume Proofs.Resume2 Proofs.Resume3 Proofs.Resume4 Proofs.Examples.
 Open Scope N_scope.
 
 (** The loop law: a run interrupted with budget [b1] and resumed with [b2] equals one run with
@@ -39,6 +39,14 @@ Theorem C04_select_nft : forall (H : list N -> list N) l w wk e b,
   select_nft_winners_endpoint H e b wk = select_nft_winners_endpoint H e (total_budget l b) w.
 Proof. exact select_nft_multi_resume. Qed.
 
+(** secondarySelectionStep (ngt): guaranteed tickets, then - in the call in which they complete, or a
+    later one - the NFT draw; interrupted in either sub-step, any number of times. *)
+Theorem C04_secondary : forall (H : list N -> list N) l w wk e b,
+  NoDup (nft_payers (st w) ++ nft_winners (st w)) ->
+  after_interrupted (secondary_selection_step H) l w = Some wk ->
+  secondary_selection_step H e b wk = secondary_selection_step H e (total_budget l b) w.
+Proof. exact secondary_multi_resume. Qed.
+
 (** a resumed selectWinners neither reads nor consumes the fresh randomness of its own call *)
 Theorem C04_select_seed_fixed : forall (H : list N -> list N) e b w r p sd,
   op (st w) = OpSelect r p ->
@@ -72,6 +80,7 @@ Print Assumptions C04_filter.
 Print Assumptions C04_select.
 Print Assumptions C04_distribute.
 Print Assumptions C04_select_nft.
+Print Assumptions C04_secondary.
 Print Assumptions C04_select_seed_fixed.
 Print Assumptions C04_completes.
 Print Assumptions C04_nonvacuous.
